@@ -20,7 +20,15 @@ NAMES = ['div', 'span', 'p', 'b', 'a', 'br', 'li', 'input', 'nosuch', 'em']
 ATTRS = ['id', 'class', 'style', 'title', 'name', 'href', 'checked', 'data-k', 'data-x', 'nosuch', 'CLASS', 'spellcheck']
 VALUES = ['x', 'a', 'a b', 'main', 'e1', 'k1', '1', '', 'color: red', 'nosuch']
 STYLE_PROPS = ['color', 'fontWeight', 'font-weight', 'paddingTop', 'float', 'nosuch']
-XPATHS = ['//div', '//*', '//p/b', '//*[@id="x"]', '//*[@class="a"]', '//a[1]', '//div[last()]', 'span', '/div', '//li/..',
+# class queries: one name, several names, names in another order, and names that occur nowhere (a lookup of a missing
+# name must not leave a trace in an index)
+CLASS_QUERIES = ['a', 'a b', 'k', 'b a', 'a zz', 'k nosuch', 'a b c nosuch', 'x y', 'nosuch a', 'k2 k', 'lead zz', 'a  b']
+
+
+def clsq(s, b):
+    return CLASS_QUERIES[(b + len(s or '')) % len(CLASS_QUERIES)]
+
+XPATHS = ['//div/*', '/*/*', '//*/child::*', '//div/*/*', '//div', '//*', '//p/b', '//*[@id="x"]', '//*[@class="a"]', '//a[1]', '//div[last()]', 'span', '/div', '//li/..',
           '//*[@title]', '//div//span', '//br', '//*[@name="n"]', 'descendant::p', '//*[@data-k="k1"]', '//input[@checked]',
           '//*[text()="x"]', '//*[contains(@class, "a")]', '//p | //b']
 
@@ -132,7 +140,7 @@ simple('el.children[:]', NONE, lambda c, a, b, s: list(c.E(a).children), scr=Tru
 simple('el.blocks[:]', NONE, lambda c, a, b, s: list(c.E(a).blocks), scr=True)
 simple('el.getStyle', NONE, lambda c, a, b, s: c.E(a).getStyle(s))
 simple('el.getStyleDict', NONE, lambda c, a, b, s: c.E(a).getStyleDict(), scr=True)
-simple('el.getElementsByClassName', NONE, lambda c, a, b, s: c.E(a).getElementsByClassName(s or 'a'), scr=True)
+simple('el.getElementsByClassName', NONE, lambda c, a, b, s: c.E(a).getElementsByClassName(clsq(s, b)), scr=True)
 simple('el.in-attributes', NONE, lambda c, a, b, s: s in c.E(a).attributes)
 simple('el.attributes[k]', NONE, lambda c, a, b, s: c.E(a).attributes[s])
 simple('el.attributesDOM.getNamedItem', NONE, lambda c, a, b, s: c.E(a).attributesDOM.getNamedItem(s))
@@ -266,7 +274,7 @@ ponly('p.getElementsByTagName-root', PNONE, lambda p, c, a, b, s: p.getElementsB
 ponly('p.getElementsByName', ALL, lambda p, c, a, b, s: p.getElementsByName(s), scr=True)
 ponly('p.getElementById', ALL, lambda p, c, a, b, s: p.getElementById(s))
 ponly('p.getElementById-root', SUB, lambda p, c, a, b, s: p.getElementById(s, root=c.E(a)))
-ponly('p.getElementsByClassName', PNONE, lambda p, c, a, b, s: p.getElementsByClassName(s or 'a'), scr=True)
+ponly('p.getElementsByClassName', PNONE, lambda p, c, a, b, s: p.getElementsByClassName(clsq(s, b)), scr=True)
 ponly('p.getElementsByAttr', ALL, lambda p, c, a, b, s: p.getElementsByAttr(ATTRS[b % len(ATTRS)], s), scr=True)
 ponly('p.getElementsWithAttrValues', ALL, lambda p, c, a, b, s: p.getElementsWithAttrValues(ATTRS[b % len(ATTRS)], [s, 'x']), scr=True)
 ponly('p.getElementsCustomFilter', ALL, lambda p, c, a, b, s: p.getElementsCustomFilter(attr_lambda(ATTRS[b % len(ATTRS)], s)), scr=True)
@@ -321,9 +329,9 @@ def _noindex(p, c, a, b, s):
     if not hasattr(p, '_idMap'):
         return None
     return (p.getElementsByTagName(NAMES[b % len(NAMES)], useIndex=False), p.getElementsByName(s, useIndex=False),
-            p.getElementById(s, useIndex=False), p.getElementsByClassName(s or 'a', useIndex=False),
+            p.getElementById(s, useIndex=False), p.getElementsByClassName(clsq(s, b), useIndex=False),
             p.getElementsByAttr(ATTRS[b % len(ATTRS)], s, useIndex=False),
-            p.getElementsByName(s, root=c.E(a)), p.getElementsByClassName(s or 'a', root=c.E(a)),
+            p.getElementsByName(s, root=c.E(a)), p.getElementsByClassName(clsq(s, b), root=c.E(a)),
             p.getElementsByAttr(ATTRS[b % len(ATTRS)], s, root=c.E(a)))
 
 
@@ -348,7 +356,7 @@ def _collection(p, c, a, b, s):
     col = p.getAllNodes() if b % 2 else p.getElementsByTagName(NAMES[b % len(NAMES)])
     k = ATTRS[b % len(ATTRS)]
     out = []
-    for f in (lambda: col.getElementsByTagName(NAMES[a % len(NAMES)]), lambda: col.getElementsByName(s), lambda: col.getElementsByClassName(s or 'a'),
+    for f in (lambda: col.getElementsByTagName(NAMES[a % len(NAMES)]), lambda: col.getElementsByName(s), lambda: col.getElementsByClassName(clsq(s, b)),
               lambda: col.getElementById(s), lambda: col.getElementsByAttr(k, s), lambda: col.getElementsWithAttrValues(k, [s]),
               lambda: col.getElementsCustomFilter(attr_lambda(k, s)), lambda: col.getAllNodes(), lambda: col.getAllNodeUids(),
               lambda: col.contains(c.E(a)), lambda: col.containsUid(c.E(a).uid), lambda: col.filterAll(tagname=NAMES[a % len(NAMES)]),
@@ -527,6 +535,9 @@ class Check(PropCheck):
             if rng.random() < 0.4:
                 doctype = rng.choice(('DOCTYPE html', 'doctype html'))
         tree2 = g.gen_tree(rng, True, 0, [rng.choice((1, 3, 5))])
+        tail = None
+        if parsed and tree[1] != WRAPPER and rng.random() < 0.2:
+            tail = rng.choice(['&Jerry', '<', '<span class=', '<!-- open', '&#12', '</'])
         attr_idx = []
         if holder == 'indexed' and rng.random() < 0.4:
             attr_idx = rng.sample(c17.ATTR_INDEXABLE, rng.choice((1, 2)))
@@ -561,7 +572,7 @@ class Check(PropCheck):
                     e = [k, rng.choice((0, 0, 1))]
                 pre.append([rng.randrange(max(n, 1)), e])
         return {'holder': holder, 'idx': [rng.randint(0, 1) for _ in range(4)] if holder == 'indexed' else [1, 1, 1, 1],
-                'attr_idx': attr_idx, 'doctype': doctype, 'tree': tree, 'tree2': tree2, 'pre': pre, 'ops': ops}
+                'attr_idx': attr_idx, 'doctype': doctype, 'tree': tree, 'tree2': tree2, 'pre': pre, 'ops': ops, 'tail': tail}
 
     def nontrivial(self, d):
         return len(d['ops']) >= 2 or any(OBS[o[1]][1](0, 0) != ['read', 'none'] for o in d['ops'])
